@@ -758,6 +758,10 @@ func (u *Unit) specCall(x *ast.CallExpr, env *Env, sc *specCtx) Value {
 		}
 		u.D.Fun("uf_"+name, rs, ss...)
 		return Value{App("uf_"+name, rs, ts...), rt}
+	case "strof":
+		v := u.sv(x.Args[0], env, sc)
+		_, un := u.boxFn(SStr)
+		return Value{App(un, SStr, v.Term), types.Typ[types.String]}
 	case "zeroof":
 		v := u.sv(x.Args[0], env, sc)
 		if v.Ty == nil {
